@@ -372,7 +372,8 @@ def random_histories(chk, drv, work, tier):
             raise vlib.MachineryError("random history %d (seed %d) was rejected (%s) but its re-run was %s: flaky harness"
                                       % (j["i"], j["seed"], why, v2[0]))
         chk.violation("random history is not a behaviour of StoreAbs: %s" % why, detail, key=key)
-    if tot["collects"] == 0 or tot["reclaimed"] == 0:
+    all_accepted = all(v[0] == "accepted" for _, v in results)
+    if all_accepted and (tot["collects"] == 0 or tot["reclaimed"] == 0):
         raise vlib.MachineryError("random histories never observed a collection reclaiming a block (vacuous)")
     tot["distinct_block_sizes"] = len(tot["distinct_block_sizes"])
     chk.extra["random"] = dict(tot, histories=nhist, steps_each=steps)
